@@ -390,6 +390,31 @@ def settle_scripts(ctx, cases, verdicts):
 
 
 # ---------- driver ----------
+def huge_ints(ctx):
+    """Integer literals beyond what TLC holds (and beyond CPython's default 4300-digit int<->str limit, seeded C18_13): Micheline integers are
+    arbitrary precision, the text of one is its decimal digits, so printing and parsing must not depend on any conversion limit.
+    Judged by the statement itself: parse(format(e)) = e, inline and multi-line, at the root, in argument position and in code."""
+    for digits in (640, 4299, 4300, 4301, 5000, 20000):
+        for sign in ('', '-'):
+            big = sign + '1' + ('7' * (digits - 2)) + '3'
+            for where, e in (('root', {'int': big}), ('argument', {'prim': 'Pair', 'args': [{'int': big}, {'string': 'x'}]}),
+                             ('sequence', [{'int': big}, {'int': '0'}]),
+                             ('code', [{'prim': 'PUSH', 'args': [{'prim': 'int'}, {'int': big}]}, {'prim': 'DROP'}])):
+                for inline in (True, False):
+                    ctx.replayed += 1
+                    ctx.count(('huge-int', digits, sign, where, inline), nontrivial=True)
+                    case = {'huge_int': {'digits': digits, 'sign': sign, 'where': where, 'inline': inline}}
+                    st, text = impl_format(e, inline)
+                    if st != 'ok':
+                        ctx.mismatch('C18:huge-int:format-raises', 'an integer of %d digits (%s) is not printed: %s' % (digits, where, text), case)
+                        continue
+                    st, back = impl_parse(text)
+                    if st != 'ok':
+                        ctx.mismatch('C18:huge-int:parse-raises', 'the text of an integer of %d digits (%s, inline=%s) is not read back: %s' % (digits, where, inline, back), case)
+                    elif back != e:
+                        ctx.mismatch('C18:huge-int:roundtrip', 'an integer of %d digits (%s, inline=%s) reads back as a different expression' % (digits, where, inline), case)
+
+
 def run(ctx):
     from pytezos.michelson.tags import prim_tags
     leaf = LEAF_Q if ctx.quick else LEAF_T
@@ -445,6 +470,7 @@ def run(ctx):
         for k, c in enumerate(pending2):
             c['id'] = 'again-%d' % k
         settle(ctx, pending2, judge(ctx, pending2, 'MichTextTrace_again'))
+    huge_ints(ctx)
     ctx.exhaustive = True
 
 
@@ -453,7 +479,10 @@ def replay(ctx, rep):
 
     def tup(x):
         return tuple(tup(y) for y in x) if isinstance(x, list) else x
-    if c['kind'] == 'expr':
+    if 'huge_int' in c:
+        huge_ints(ctx)
+        ok = not ctx.mismatches
+    elif c['kind'] == 'expr':
         pending = []
         ok = check_case(ctx, tup(c['e']), tup(c['toks']), c['inline'], pending)
         ok = settle(ctx, pending, judge(ctx, pending, 'MichTextTrace')) and ok
